@@ -352,7 +352,7 @@ func runConcurrency(rc *RunCtx) *Violation {
 	}
 	deepRun := simrt.Choose(16) == 1
 	if deepRun {
-		rc.probe("all tasks parse deeply nested input (250-450 levels) concurrently")
+		rc.probe("all tasks parse deeply nested input (350-500 levels) concurrently")
 	}
 	opSerial := 0
 	opDelims := func() [3]string {
@@ -417,7 +417,7 @@ func runConcurrency(rc *RunCtx) *Violation {
 						}
 					}
 					if len(nests) > 0 {
-						x = instantiate(nests[simrt.Choose(len(nests))].nest(250+simrt.Choose(200)), delims)
+						x = instantiate(nests[simrt.Choose(len(nests))].nest(350+simrt.Choose(150)), delims)
 					}
 				}
 				op.input = x
@@ -498,6 +498,9 @@ func runConcurrency(rc *RunCtx) *Violation {
 		prefix = append(prefix, op)
 	}
 	nTasks := 2 + simrt.Choose(bound(5, 7))
+	if deepRun && nTasks < 4 {
+		nTasks = 4
+	}
 	taskOps := make([][]*concOp, nTasks)
 	for t := range taskOps {
 		n := 1 + simrt.Choose(bound(6, 8))
@@ -532,6 +535,11 @@ func runConcurrency(rc *RunCtx) *Violation {
 	cfg.ParkDen = []int{2, 4, 8, 16, 64}[simrt.Choose(5)]
 	cfg.PCTDepth = 1 + simrt.Choose(3)
 	cfg.PCTLen = []int{1000, 10000, 100000}[simrt.Choose(3)]
+	if deepRun {
+		// keep all tasks advancing together so that they are deep at the same time
+		cfg.Strategy = simrt.StratWalk
+		cfg.GapScale = []int{256, 1024, 4096}[simrt.Choose(3)]
+	}
 	stratName := ""
 	if schedTarget != nil {
 		// directed witness schedule requested by the replay file
